@@ -292,7 +292,9 @@ def oracle(chk, quick):
     from aotools import opticalpropagation as op
     op = common.Guarded(op, chk)
     nprng = numpy.random.default_rng(chk.rng.getrandbits(32))
-    sizes = [2, 4, 6, 8, 10, 16, 32, 64] + ([] if quick else [12, 24, 48, 96, 128])
+    # even grids of every arithmetic kind: powers of two, smooth sizes, and sizes with a large prime factor (26 = 2·13, 34 = 2·17, …:
+    # FFT libraries treat those differently, and a transform padded to a "fast" length is no longer the scaled unitary DFT)
+    sizes = [2, 4, 6, 8, 10, 16, 26, 32, 34, 64] + ([] if quick else [12, 24, 38, 46, 48, 52, 58, 62, 96, 128])
     reps = 3 if quick else 12
     props = propagators(op)
     it = chk.rng.randint(0, 9)
